@@ -537,4 +537,47 @@ def retPart : Option Ann → List Tok
 def methodToks (f : String) (ps : List RParam) (ret : Option Ann) : List Tok :=
   .name "def" :: .name f :: .lpar :: (joinComma (sigItems ps) ++ (.rpar :: (retPart ret ++ [.colon, .ellipsis])))
 
+/-! ### legal `inspect.Signature` parameter lists -/
+
+def optWf : Option Ann → Bool
+  | some a => a.wf
+  | none => true
+
+/-- phases of a legal `inspect.Signature` parameter list -/
+inductive VPhase where
+  /-- nothing yet -/
+  | po0
+  /-- only positional-only parameters so far (at least one) -/
+  | po1
+  | pk
+  /-- after `*args` or a keyword-only parameter -/
+  | ko
+  | done
+deriving Repr, DecidableEq
+
+/-- what `inspect.Signature.__init__` enforces: kinds in order, no parameter without default after one with
+    default among the positional ones, no default on `*args` / `**kw` -/
+def validGo : VPhase → Bool → List RParam → Bool
+  | _, _, [] => true
+  | ph, seenD, p :: rest =>
+    match p.kind with
+    | .po => (ph = .po0 || ph = .po1) && !(!p.dflt.isSome && seenD) && validGo .po1 (seenD || p.dflt.isSome) rest
+    | .pk => (ph = .po0 || ph = .po1 || ph = .pk) && !(!p.dflt.isSome && seenD) &&
+               validGo .pk (seenD || p.dflt.isSome) rest
+    | .va => (ph = .po0 || ph = .po1 || ph = .pk) && p.dflt.isNone && validGo .ko seenD rest
+    | .ko => (ph != .done) && validGo .ko seenD rest
+    | .vk => (ph != .done) && p.dflt.isNone && validGo .done seenD rest
+
+def validSig (ps : List RParam) : Bool := validGo .po0 false ps
+
+/-- names are bindable, annotations / defaults are expressions of the subset -/
+def rparamOk (p : RParam) : Bool := identOk p.name && optWf p.ann && optWf p.dflt
+
+/-- `*args` / `**kw` never carry a default in a signature -/
+def noVarDefault (p : RParam) : Bool :=
+  match p.kind with
+  | .va => p.dflt.isNone
+  | .vk => p.dflt.isNone
+  | _ => true
+
 end Typedpy.StubText
